@@ -339,8 +339,10 @@ class Check(core.PropertyCheck):
         c, pool, fx = self._consts("small")
         g = models[0].graph
         behs = [(b, pool, fx, "model") for b in g.edge_cover(ctx.rng, max_len=12, tail=3)]
+        if len(behs) > 8000:  # thorough: the edge cover of the MaxOps=3 graph is sampled
+            behs = ctx.rng.sample(behs, 8000)
         big, bpool, bfx = self._consts("big")
-        sims, _ = ctx.simulate(self.MODEL, dict(big, MaxOps=8 if ctx.quick else 12), num=400 if ctx.quick else 6000,
+        sims, _ = ctx.simulate(self.MODEL, dict(big, MaxOps=8 if ctx.quick else 12), num=400 if ctx.quick else 4000,
                                depth=10 if ctx.quick else 14, timeout=1200)
         behs += [(b, bpool, bfx, "simulate") for b in sims]
         for i, (b, p, f0, src) in enumerate(behs):
@@ -353,8 +355,8 @@ class Check(core.PropertyCheck):
                 yield core.Scenario({"pool": {str(k): v for k, v in POOL_T.items()},
                                      "facts": {str(k): v for k, v in FACTS_T.items()}, "ff": ff, "via_options": ff,
                                      "ops": ops}, source="suite")
-        for _ in range(300 if ctx.quick else 5000):
-            yield core.Scenario(self._random(rng), source="random")
+        for i in range(300 if ctx.quick else 4000):
+            yield core.Scenario(self._pattern(rng) if i % 4 == 3 else self._random(rng), source="random")
 
     # -- random driver: bigger pools, every flow variant, all four orders, longer histories
     def _random(self, rng):
@@ -369,7 +371,7 @@ class Check(core.PropertyCheck):
                              rng.random() < 0.3, [x for x in "ab" if rng.random() < 0.5])
             fx = {"marked": old["marked"], "tags": list(old["tags"]), "ftype": t, "key": dict(old["key"])}
             for _ in range(rng.choice([0, 1, 1, 2])):
-                what = rng.choice(["marked", "tag", "method", "url", "size", "size"])
+                what = rng.choice(["marked", "tag", "tag", "method", "url", "size", "size"])
                 if what == "marked":
                     fx["marked"] = not fx["marked"]
                 elif what == "tag":
@@ -387,6 +389,10 @@ class Check(core.PropertyCheck):
         cur = {i: fx[i] for i in pool}
         ops = []
         rev = False
+        if rng.random() < 0.6:  # start under an order whose keys change, often with a filter that flows drop out of
+            ops.append(["setorder", rng.choice(ORDERS[1:])])
+            if rng.random() < 0.6:
+                ops.append(["setfilter", flt("tag", rng.choice("ab"), rng.random() < 0.3)])
         for _ in range(rng.randint(4, 18)):
             r = rng.random()
             i = rng.randint(1, n)
@@ -414,6 +420,52 @@ class Check(core.PropertyCheck):
                 ops.append(["clear"])
         return {"pool": {str(k): v for k, v in pool.items()}, "facts": {str(k): v for k, v in fx.items()},
                 "ff": rng.random() < 0.3, "via_options": rng.random() < 0.3, "ops": ops}
+
+    def _pattern(self, rng):
+        """Random member of the family 'a listed flow leaves the list, its sort key changes, it comes back'."""
+        sc = self._random(rng)
+        pool = {int(k): v for k, v in sc["pool"].items()}
+        fx = {int(k): dict(v, tags=sorted(set(v["tags"]) | {"a"}), marked=True, key=dict(v["key"])) for k, v in sc["facts"].items()}
+        ids = list(pool)
+        rng.shuffle(ids)
+        v = ids[0]
+        t = VARIANTS[pool[v]]
+        order = rng.choice(["size", "size", "url", "method"])
+        dom = {"size": (0, 1, 2, 3), "url": URL_DOM[t], "method": METHOD_DOM[t]}[order]
+        if len(dom) < 2:
+            order, dom = "size", (0, 1, 2, 3)
+        for i in ids:  # the victim starts at one end of its range, the others in the middle
+            fx[i]["key"]["size"] = dom[0] if (i == v and order == "size") else rng.choice([1, 2])
+        fx[v]["key"][order] = dom[0]
+
+        def ch(**kw):
+            cur = fx[v] = {"marked": fx[v]["marked"], "tags": list(fx[v]["tags"]), "ftype": fx[v]["ftype"], "key": dict(fx[v]["key"])}
+            for k, x in kw.items():
+                if k in ORDERS:
+                    cur["key"][k] = x
+                else:
+                    cur[k] = x
+            return {"marked": cur["marked"], "tags": list(cur["tags"]), "ftype": cur["ftype"], "key": dict(cur["key"])}
+
+        init = {str(k): {"marked": x["marked"], "tags": list(x["tags"]), "ftype": x["ftype"], "key": dict(x["key"])} for k, x in fx.items()}
+        ops = [["add", i] for i in ids]
+        ops.insert(rng.randint(0, len(ops)), ["setorder", order])
+        if rng.random() < 0.4:
+            ops.append(["setrev", True])
+        how = rng.choice(["tag", "tag", "order", "marked", "type"])
+        new = dom[-1]
+        if how == "tag":
+            ops += [["setfilter", flt("tag", "a")], ["update", v, ch(tags=[])], ["update", v, ch(**{order: new})],
+                    rng.choice([["update", v, ch(tags=["a"])], ["setfilter", flt("all")]])]
+        elif how == "order":
+            ops += [["setorder", "time"], ["update", v, ch(**{order: new})], ["setorder", order]]
+        elif how == "marked":
+            ops += [["setfilter", flt("marked")], ["update", v, ch(marked=False)], ["update", v, ch(**{order: new})],
+                    rng.choice([["update", v, ch(marked=True)], ["setfilter", flt("all")]])]
+        else:
+            ops += [["setfilter", flt("type", t, True)], ["update", v, ch(**{order: new})], ["setfilter", flt("all")]]
+        ops += sc["ops"][: rng.randint(0, 3)]
+        return {"pool": sc["pool"], "facts": init, "ff": sc["ff"], "via_options": sc["via_options"], "ops": ops}
 
     def execute(self, sc):
         return Run(sc).go()
